@@ -297,6 +297,37 @@ class StateEngine(object):
                 )
             }
 
+    def abort_execution(self, event, message):
+        """
+        Called by the EventDispatcher when notify() has raised an exception
+        that it could not turn into a failure of the state itself (the event
+        or the State Machine definition cannot be interpreted at all). If the
+        event belongs to an execution that has been started and has not ended,
+        fail that execution rather than leaving it RUNNING for ever. This also
+        releases any events being held for its Map or Parallel states.
+        """
+        try:
+            context = event["context"]
+            execution_arn = context["Execution"]["Id"]
+            execution = self.executions.get(execution_arn)
+            if not execution or execution.get("status") != "RUNNING":
+                return
+
+            state_machine = self.asl_store.get_cached_view(
+                context["StateMachine"]["Id"]
+            )
+            if not state_machine:
+                return
+
+            event["data"] = {"Error": "States.Runtime", "Cause": message}
+            self.end_execution(state_machine, None, event)
+        except Exception as e:
+            self.logger.error(
+                "Unable to fail the execution for event {}: {}:{}".format(
+                    event, type(e).__name__, str(e)
+                )
+            )
+
     def log_and_drop(self, message, obj, id):
         """
         Boiler plate to deal with unrecoverable errors that should rarely occur.
